@@ -19,7 +19,6 @@ import (
 
 	"github.com/glowlabs-org/gca-backend/glow"
 
-	"verifh/ev"
 	"verifh/pool"
 )
 
@@ -280,7 +279,7 @@ func init() {
 		return c20Run(j), nil
 	})
 	checks["C20"] = func(tier string) int {
-		run := ev.NewRun("C20", tier, "exploration")
+		run := newRun("C20", tier, "exploration")
 		// ---- (a), (b): production binary ----
 		out, err := vprod("consts")
 		if err != nil {
